@@ -10,7 +10,8 @@
       ending before a '/';
     - the sequential UNIQUE-checked row updates compute the simultaneous renaming;
     - db.RenameMailboxPerUser and db.DeleteMailboxPerUser equal the set
-      semantics of Spec/Names.v whenever [classify_db]'s conditions hold
+      semantics of Spec/Names.v (DELETE unconditionally; RENAME whenever no name
+      lies below the new name)
       (these are the [_partial] theorems: the composition with the command
       line -- Fields/Trim versus [decode_astring] -- and with CREATE,
       SUBSCRIBE, LSUB, ... into one theorem over histories is NOT proved; it is
@@ -53,22 +54,28 @@ Theorem c11_sequential_updates : forall (us : list (str * str)) (bs : list mbox)
 Proof. exact apply_updates_ok. Qed.
 Print Assumptions c11_sequential_updates.
 
-(** RENAME old new on ANY store with unique names, outside the finding classes
-    (the premises are [classify_db]'s tests): the model of
-    db.RenameMailboxPerUser returns OK and the table is the spec's: parents of
-    [new] added, [old] -> [new], every child old/r -> new/r, all other rows and
-    every row's messages untouched *)
+(** RENAME old new on ANY store with unique names (old, new non-empty, not INBOX, new not in
+    the reserved Roles namespace, old present, new absent) in which no name lies below [new]:
+    the model of db.RenameMailboxPerUser returns OK and the table is the spec's -- parents of
+    [new] added, [old] -> [new], every child old/r -> new/r (also when new lies below old:
+    RENAME a a/b), all other rows and every row's messages untouched.  (If a name does lie
+    below [new], the spec refuses a renaming that would duplicate a name, and so does the
+    code, atomically; that case is evaluated by the check, not proved.) *)
 Theorem c11_db_rename_refines_partial : forall (st : store) (old new : str),
   NoDup (names (boxes st)) ->
-  is_nil old = false -> is_nil new = false ->
+  is_nil old = false -> is_nil new = false -> reserved new = false ->
   str_eqb (canon new) INBOX = false -> str_eqb (canon old) INBOX = false ->
   exists_box (boxes st) old = true -> exists_box (boxes st) new = false ->
-  existsb is_nil (raw_parents new) = false -> existsb twin (raw_parents new) = false ->
-  is_child old new = false ->
   existsb (fun m => is_child new m) (names (add_missing (parents new) (boxes st))) = false ->
   (let '(bs, r) := db_rename (boxes st) old new in (with_boxes st bs, r)) = spec_rename st old new.
 Proof. exact db_rename_refines. Qed.
 Print Assumptions c11_db_rename_refines_partial.
+
+(** the parent loops of CREATE / RENAME / RENAME INBOX add exactly the spec's parents *)
+Theorem c11_parent_creation_is_spec : forall (n : str) (bs : list mbox),
+  create_missing (paths_of n) bs = add_missing (parents n) bs.
+Proof. exact create_missing_parents. Qed.
+Print Assumptions c11_parent_creation_is_spec.
 
 (** what the spec's RENAME does to the set of names, and that messages travel with the name *)
 Theorem c11_rename_moves_exactly : forall (old new : str) (bs : list mbox) (m : str),
@@ -83,11 +90,10 @@ Theorem c11_rename_keeps_messages : forall (old new : str) (b : mbox),
 Proof. exact ren_keeps_cargo. Qed.
 Print Assumptions c11_rename_keeps_messages.
 
-(** DELETE n outside the protected-case class equals the spec on ANY store
-    (unconditional in the names since the fix of the LIKE child query) *)
+(** DELETE n equals the spec on ANY store, for every non-empty name (unconditional since
+    the fixes of the LIKE child query and of the protected-name comparison) *)
 Theorem c11_db_delete_refines_partial : forall (st : store) (n : str),
   is_nil n = false ->
-  existsb (fun d => equal_fold n d) protected_names = mem_str n protected_names ->
   (let '(bs, r) := db_delete (boxes st) n in (with_boxes st bs, r)) = spec_delete st n.
 Proof. exact db_delete_refines. Qed.
 Print Assumptions c11_db_delete_refines_partial.
@@ -118,45 +124,30 @@ Theorem c11_refuted_quoted_escape : exists h c, valid_cmd c = true /\ classify (
 Proof. exists [], (CCreate (S_ """q\""uote""")). vm_compute. repeat split; reflexivity. Qed.
 Print Assumptions c11_refuted_quoted_escape.
 
-Theorem c11_refuted_rename_into_child : exists h c, valid_cmd c = true /\ classify (state_after h) c = Some K_rename_into_child /\ refines_at (state_after h) c = false.
-Proof. exists [(CCreate (S_ "a/x"))], (CRename (S_ "a") (S_ "a/b")). vm_compute. repeat split; reflexivity. Qed.
-Print Assumptions c11_refuted_rename_into_child.
+(** the witnesses of the classes repaired in fix wave 3 (rename_into_child, rename_leading_slash,
+    rename_partial, inbox_rename_orphan, protected_case, inbox_twin, roles_shadow, lsub_persists,
+    lsub_adds_inbox) are now outside every class and the model refines the spec on them *)
+Example c11_fixed_wave3_witnesses :
+  forallb (fun '(h, c) => match classify (state_after h) c with None => true | _ => false end && refines_at (state_after h) c)
+    [([CCreate (S_ "a/x")], CRename (S_ "a") (S_ "a/b"));
+     ([], CRename (S_ "Spam") (S_ "/y"));
+     ([CRename (S_ "INBOX") (S_ "p/q/r"); CCreate (S_ "k/r")], CRename (S_ "k") (S_ "p/q"));
+     ([], CRename (S_ "INBOX") (S_ "p/q"));
+     ([CCreate (S_ "sent")], CDelete (S_ "sent"));
+     ([], CCreate (S_ "Inbox/sub"));
+     ([CAppend (S_ "INBOX")], CStatus (S_ "inbox"));
+     ([], CCreate (S_ "Roles/r@x/INBOX"));
+     ([CCreate (S_ "Roles/r@x/INBOX")], CSelect (S_ "Roles/r@x/INBOX"));
+     ([], CLsub);
+     ([CSubscribe (S_ "x")], CLsub);
+     ([CLsub; CSubscribe (S_ "x")], CLsub)] = true.
+Proof. vm_compute. reflexivity. Qed.
 
-Theorem c11_refuted_rename_leading_slash : exists h c, valid_cmd c = true /\ classify (state_after h) c = Some K_rename_leading_slash /\ refines_at (state_after h) c = false.
-Proof. exists [], (CRename (S_ "Spam") (S_ "/y")). vm_compute. repeat split; reflexivity. Qed.
-Print Assumptions c11_refuted_rename_leading_slash.
-
-Theorem c11_refuted_rename_partial : exists h c, valid_cmd c = true /\ classify (state_after h) c = Some K_rename_partial /\ refines_at (state_after h) c = false.
-Proof. exists [(CRename (S_ "INBOX") (S_ "p/q/r")); (CCreate (S_ "k/r"))], (CRename (S_ "k") (S_ "p/q")). vm_compute. repeat split; reflexivity. Qed.
-Print Assumptions c11_refuted_rename_partial.
-
-Theorem c11_refuted_inbox_rename_orphan : exists h c, valid_cmd c = true /\ classify (state_after h) c = Some K_inbox_rename_orphan /\ refines_at (state_after h) c = false.
-Proof. exists [], (CRename (S_ "INBOX") (S_ "p/q")). vm_compute. repeat split; reflexivity. Qed.
-Print Assumptions c11_refuted_inbox_rename_orphan.
-
-Theorem c11_refuted_protected_case : exists h c, valid_cmd c = true /\ classify (state_after h) c = Some K_protected_case /\ refines_at (state_after h) c = false.
-Proof. exists [(CCreate (S_ "sent"))], (CDelete (S_ "sent")). vm_compute. repeat split; reflexivity. Qed.
-Print Assumptions c11_refuted_protected_case.
-
-Theorem c11_refuted_inbox_twin_create : exists h c, valid_cmd c = true /\ classify (state_after h) c = Some K_inbox_twin /\ refines_at (state_after h) c = false.
-Proof. exists [], (CCreate (S_ "Inbox/sub")). vm_compute. repeat split; reflexivity. Qed.
-Print Assumptions c11_refuted_inbox_twin_create.
-
-Theorem c11_refuted_inbox_twin_status : exists h c, valid_cmd c = true /\ classify (state_after h) c = Some K_inbox_twin /\ refines_at (state_after h) c = false.
-Proof. exists [(CAppend (S_ "INBOX"))], (CStatus (S_ "inbox")). vm_compute. repeat split; reflexivity. Qed.
-Print Assumptions c11_refuted_inbox_twin_status.
-
-Theorem c11_refuted_roles_shadow : exists h c, valid_cmd c = true /\ classify (state_after h) c = Some K_roles_shadow /\ refines_at (state_after h) c = false.
-Proof. exists [(CCreate (S_ "Roles/r@x/INBOX"))], (CSelect (S_ "Roles/r@x/INBOX")). vm_compute. repeat split; reflexivity. Qed.
-Print Assumptions c11_refuted_roles_shadow.
-
-Theorem c11_refuted_lsub_persists : exists h c, valid_cmd c = true /\ classify (state_after h) c = Some K_lsub_persists /\ refines_at (state_after h) c = false.
-Proof. exists [], CLsub. vm_compute. repeat split; reflexivity. Qed.
-Print Assumptions c11_refuted_lsub_persists.
-
-Theorem c11_refuted_lsub_adds_inbox : exists h c, valid_cmd c = true /\ classify (state_after h) c = Some K_lsub_adds_inbox /\ refines_at (state_after h) c = false.
-Proof. exists [(CSubscribe (S_ "x"))], CLsub. vm_compute. repeat split; reflexivity. Qed.
-Print Assumptions c11_refuted_lsub_adds_inbox.
+(** RENAME a a/b now gives a/b and a/b/x *)
+Example c11_rename_below_itself :
+  names (boxes (state_after [CCreate (S_ "a/x"); CRename (S_ "a") (S_ "a/b")]))
+  = map S_ ["INBOX"; "Sent"; "Drafts"; "Trash"; "Spam"; "a/b"; "a/b/x"]%string.
+Proof. vm_compute. reflexivity. Qed.
 
 (** ---- regression: the behaviour BEFORE the fix of the child query (facts about SQLite's
     LIKE, Base/Like.v, not about the current model): the old query selected rows that are no children ---- *)
